@@ -1,6 +1,6 @@
 """C15: same impls via either entry point, merged or split lists, any co-derived set."""
 import random, json, re
-import itemgen as G, refmodel as R, glayer
+import itemgen as G, refmodel as R, glayer, blayer as B
 from common import Expander
 
 LEVEL = "exploration"
@@ -28,35 +28,6 @@ def per_trait(items, traits):
     return out if i == len(items) else None
 
 
-def _take_qualified_attr(tokens):
-    """(args, rest) if the re-emitted item still starts with a derive_ex attribute macro (bare or crate path), else None (token text from the expander)"""
-    # inert attributes (lints, docs, ..) in front of it stay on the item: rustc expands the first attribute *macro*, wherever it stands
-    lead = ""
-    while True:
-        m = re.match(r"\s*#\s*\[\s*(?:(?:::\s*)?derive_ex\s*::\s*)?derive_ex\s*\(", tokens)
-        if m:
-            break
-        m0 = re.match(r"\s*#\s*\[", tokens)
-        if not m0:
-            return None
-        i, depth = m0.end(), 1
-        while i < len(tokens) and depth:
-            depth += {"[": 1, "]": -1}.get(tokens[i], 0)
-            i += 1
-        if depth:
-            return None
-        lead, tokens = lead + tokens[:i] + " ", tokens[i:]
-    i = m.end()
-    depth = 1
-    while i < len(tokens) and depth:
-        depth += {"(": 1, ")": -1}.get(tokens[i], 0)
-        i += 1
-    m2 = re.match(r"\s*\]", tokens[i:])
-    if depth or not m2:
-        return None
-    return tokens[m.end():i - 1], lead + tokens[i + m2.end():]
-
-
 def expand_like_rustc(ex, args, item, fuel=6):
     """attribute macros expand outside-in: the first derive_ex attribute runs, its output item is expanded again if it still carries a
     derive_ex attribute macro written with the crate path (in-process emulation of rustc's expansion loop); returns the impls in order"""
@@ -67,7 +38,7 @@ def expand_like_rustc(ex, args, item, fuel=6):
         if r["status"] != "ok" or not r.get("items"):
             return None
         out += [i["canon"] for i in r["items"][1:]]
-        nxt = _take_qualified_attr(r["items"][0]["tokens"])
+        nxt = B.take_qualified_attr(r["items"][0]["tokens"])
         if nxt is None:
             return out
         args, item = nxt
